@@ -699,6 +699,7 @@ fn is_blank(block: &GraphBlock) -> bool {
             items.iter().all(|item| item.iter().all(is_blank))
         }
         GraphBlock::RawBlock(_, text) => text.trim().is_empty(),
+        GraphBlock::Plain(inlines) | GraphBlock::Para(inlines) => inlines.is_empty(),
         _ => false,
     }
 }
